@@ -12,534 +12,17 @@
 //!
 //! usage: httpreq_build <seed> <count>            generated cases (mostly valid + a malformed stream)
 //!        httpreq_build --replay <file>           re-run the descriptions found in a JSON-lines file
-use std::collections::BTreeMap;
 use std::io::BufRead;
 use std::panic::{catch_unwind, AssertUnwindSafe};
-use std::sync::Arc;
 
-use crux_core::Command;
-use crux_http::http::headers::{HeaderValue, HeaderValues};
-use crux_http::http::{Body, Method, Url};
 use crux_http::protocol::HttpRequest;
-use serde::{Deserialize, Serialize};
 use serde_json::{json, Value};
 use vh::rng::Rng;
 
-// ------------------------------------------------------------------ description language
-#[derive(Serialize, Deserialize, Clone, Debug, PartialEq)]
-pub struct Desc {
-    pub api: String,   // "cmd" | "cap"
-    pub entry: String, // "verb" (Http::get(&str) ...) | "request" (Http::request(Method, Url))
-    pub method: String,
-    pub url: String,
-    pub split: usize, // cap only: ops[split..] are applied to the Request inside a middleware
-    pub ops: Vec<Op>,
-}
-
-#[derive(Serialize, Deserialize, Clone, Debug, PartialEq)]
-#[serde(tag = "t")]
-pub enum Op {
-    /// insert_header: `form` = "str" (&str), "string" (String), "slice" (&[HeaderValue]), "values" (&HeaderValues)
-    Header { name: String, values: Vec<String>, form: String },
-    /// Request::append_header (request stage only)
-    Append { name: String, values: Vec<String>, form: String },
-    /// Request::remove_header (request stage only)
-    Remove { name: String },
-    ContentType { mime: String },
-    /// kind: string | bytes | json | form | into_str | into_vec | into_value | reader_none | reader_len |
-    ///       empty | json_bad | form_bad ; `hex` = raw payload for the byte/string kinds
-    Body { kind: String, hex: String, json: Option<Value>, pairs: Option<Vec<(String, String)>> },
-    /// kind: map (BTreeMap<String,String>) | struct ({page,q,tags}) | bad (a bare string: serde_qs refuses)
-    Query { kind: String, pairs: Vec<(String, String)>, page: u32, q: String, tags: Vec<String> },
-}
-
-#[derive(Serialize)]
-struct QStruct { page: u32, q: String, tags: Vec<String> }
-
-fn hex(b: &[u8]) -> String { b.iter().map(|x| format!("{:02x}", x)).collect() }
-fn unhex(s: &str) -> Vec<u8> { (0..s.len() / 2).map(|i| u8::from_str_radix(&s[2 * i..2 * i + 2], 16).unwrap()).collect() }
-
-// ------------------------------------------------------------------ independent encoders (oracle-free)
-/// application/x-www-form-urlencoded byte serialisation: alphanumerics and * - . _ stay, space is '+',
-/// everything else %XX (upper-case hex).  Written from the WHATWG description, not from the crates.
-fn form_byte(out: &mut String, s: &str) {
-    for &b in s.as_bytes() {
-        match b {
-            b'0'..=b'9' | b'a'..=b'z' | b'A'..=b'Z' | b'*' | b'-' | b'.' | b'_' => out.push(b as char),
-            b' ' => out.push('+'),
-            _ => out.push_str(&format!("%{:02X}", b)),
-        }
-    }
-}
-fn form_encode(pairs: &[(String, String)]) -> String {
-    let mut o = String::new();
-    for (i, (k, v)) in pairs.iter().enumerate() {
-        if i > 0 { o.push('&'); }
-        form_byte(&mut o, k); o.push('='); form_byte(&mut o, v);
-    }
-    o
-}
-fn qs_struct_encode(page: u32, q: &str, tags: &[String]) -> String {
-    let mut o = format!("page={}&q=", page);
-    form_byte(&mut o, q);
-    for (i, t) in tags.iter().enumerate() { o.push_str(&format!("&tags[{}]=", i)); form_byte(&mut o, t); }
-    o
-}
-
-/// What the oracles say about one op; `None` = the call itself is refused (Err) or panics.
-#[derive(Serialize, Clone, Debug, Default)]
-struct Enc {
-    /// body bytes / query string / rendered mime
-    hex: Option<String>,
-    /// independent encoder and library encoder disagree (reported, never silently accepted)
-    oracle_disagree: bool,
-}
-
-struct BadJson;
-impl Serialize for BadJson {
-    fn serialize<S: serde::Serializer>(&self, s: S) -> Result<S::Ok, S::Error> {
-        let mut m: BTreeMap<(u8, u8), u8> = BTreeMap::new(); m.insert((1, 2), 3); m.serialize(s)
-    }
-}
-
-fn enc_of(op: &Op) -> Enc {
-    match op {
-        Op::Body { kind, hex: h, json, pairs } => match kind.as_str() {
-            "string" | "bytes" | "into_str" | "into_vec" | "reader_none" | "reader_len" => Enc { hex: Some(h.clone()), ..Default::default() },
-            "empty" => Enc { hex: Some(String::new()), ..Default::default() },
-            "json" | "into_value" => Enc { hex: Some(hex(&serde_json::to_vec(json.as_ref().unwrap()).unwrap())), ..Default::default() },
-            "form" => {
-                let mine = form_encode(pairs.as_ref().unwrap());
-                let lib = serde_urlencoded::to_string(pairs.as_ref().unwrap()).ok();
-                Enc { oracle_disagree: lib.as_deref() != Some(&mine), hex: Some(hex(mine.as_bytes())) }
-            }
-            _ => Enc::default(), // json_bad, form_bad
-        },
-        Op::Query { kind, pairs, page, q, tags } => match kind.as_str() {
-            "map" => {
-                let mine = form_encode(pairs);
-                let m: BTreeMap<String, String> = pairs.iter().cloned().collect();
-                let lib = serde_qs::to_string(&m).ok();
-                Enc { oracle_disagree: lib.as_deref() != Some(&mine), hex: Some(hex(mine.as_bytes())) }
-            }
-            "struct" => {
-                let mine = qs_struct_encode(*page, q, tags);
-                let lib = serde_qs::to_string(&QStruct { page: *page, q: q.clone(), tags: tags.clone() }).ok();
-                Enc { oracle_disagree: lib.as_deref() != Some(&mine), hex: Some(hex(mine.as_bytes())) }
-            }
-            _ => Enc::default(),
-        },
-        Op::ContentType { mime } => match mime.parse::<crux_http::http::Mime>() {
-            Ok(m) => Enc { hex: Some(hex(m.to_string().as_bytes())), ..Default::default() },
-            Err(_) => Enc::default(),
-        },
-        _ => Enc::default(),
-    }
-}
-
-/// URL oracle: the `url` crate's serialisation of `u0` with its query replaced by each query string the
-/// description mentions (`None` = untouched).  `None` result = `u0` does not parse.
-fn url_table(d: &Desc, encs: &[Enc]) -> Vec<(Option<String>, Option<String>)> {
-    let mut keys: Vec<Option<String>> = vec![None];
-    for (op, e) in d.ops.iter().zip(encs) {
-        if let (Op::Query { .. }, Some(h)) = (op, &e.hex) {
-            let k = Some(h.clone());
-            if !keys.contains(&k) { keys.push(k); }
-        }
-    }
-    let base = Url::parse(&d.url).ok();
-    keys.into_iter().map(|k| {
-        let r = base.clone().map(|mut u| {
-            if let Some(q) = &k { u.set_query(Some(std::str::from_utf8(&unhex(q)).unwrap())); }
-            hex(u.to_string().as_bytes())
-        });
-        (k, r)
-    }).collect()
-}
-
-// ------------------------------------------------------------------ playing a description against crux_http
-fn hvals(values: &[String]) -> Vec<HeaderValue> { values.iter().map(|v| v.parse::<HeaderValue>().unwrap()).collect() }
-
-macro_rules! apply_builder {
-    ($b:expr, $op:expr) => {{
-        let b = $b;
-        match $op {
-            Op::Header { name, values, form } => Ok(match form.as_str() {
-                "str" => b.header(name.as_str(), values[0].as_str()),
-                "string" => b.header(name.as_str(), values[0].clone()),
-                "slice" => { let v = hvals(values); b.header(name.as_str(), &v[..]) }
-                _ => { let v: HeaderValues = hvals(values).into(); b.header(name.as_str(), &v) }
-            }),
-            Op::ContentType { mime } => Ok(b.content_type(mime.as_str())),
-            Op::Body { kind, hex: h, json, pairs } => match kind.as_str() {
-                "string" => Ok(b.body_string(String::from_utf8(unhex(h)).unwrap())),
-                "bytes" => Ok(b.body_bytes(unhex(h))),
-                "json" => b.body_json(json.as_ref().unwrap()).map_err(|e| e.to_string()),
-                "form" => b.body_form(pairs.as_ref().unwrap()).map_err(|e| e.to_string()),
-                "into_str" => Ok(b.body(std::str::from_utf8(&unhex(h)).unwrap())),
-                "into_vec" => Ok(b.body(unhex(h))),
-                "into_value" => Ok(b.body(json.clone().unwrap())),
-                "reader_none" => Ok(b.body(Body::from_reader(futures::io::Cursor::new(unhex(h)), None))),
-                "reader_len" => { let v = unhex(h); let n = v.len(); Ok(b.body(Body::from_reader(futures::io::Cursor::new(v), Some(n)))) }
-                "empty" => Ok(b.body(Body::empty())),
-                "json_bad" => b.body_json(&BadJson).map_err(|e| e.to_string()),
-                _ => b.body_form(&vec![vec![1u8]]).map_err(|e| e.to_string()),
-            },
-            Op::Query { kind, pairs, page, q, tags } => match kind.as_str() {
-                "map" => { let m: BTreeMap<String, String> = pairs.iter().cloned().collect(); b.query(&m).map_err(|e| e.to_string()) }
-                "struct" => b.query(&QStruct { page: *page, q: q.clone(), tags: tags.clone() }).map_err(|e| e.to_string()),
-                _ => b.query(&"bare").map_err(|e| e.to_string()),
-            },
-            Op::Append { .. } | Op::Remove { .. } => panic!("harness: request-stage op in builder stage"),
-        }
-    }};
-}
-
-fn apply_request(r: &mut crux_http::Request, op: &Op) -> Result<(), String> {
-    match op {
-        Op::Header { name, values, form } => { match form.as_str() {
-            "str" => { r.insert_header(name.as_str(), values[0].as_str()); }
-            "string" => r.set_header(name.as_str(), values[0].clone()),
-            "slice" => { let v = hvals(values); r.insert_header(name.as_str(), &v[..]); }
-            _ => { let v: HeaderValues = hvals(values).into(); r.insert_header(name.as_str(), &v); }
-        } Ok(()) }
-        Op::Append { name, values, form } => { match form.as_str() {
-            "str" => r.append_header(name.as_str(), values[0].as_str()),
-            "string" => r.append_header(name.as_str(), values[0].clone()),
-            "slice" => { let v = hvals(values); r.append_header(name.as_str(), &v[..]) }
-            _ => { let v: HeaderValues = hvals(values).into(); r.append_header(name.as_str(), &v) }
-        } Ok(()) }
-        Op::Remove { name } => { r.remove_header(name.as_str()); Ok(()) }
-        Op::ContentType { mime } => { r.set_content_type(mime.as_str().into()); Ok(()) }
-        Op::Body { kind, hex: h, json, pairs } => match kind.as_str() {
-            "string" => { r.body_string(String::from_utf8(unhex(h)).unwrap()); Ok(()) }
-            "bytes" => { r.body_bytes(unhex(h)); Ok(()) }
-            "json" => r.body_json(json.as_ref().unwrap()).map_err(|e| e.to_string()),
-            "form" => r.body_form(pairs.as_ref().unwrap()).map_err(|e| e.to_string()),
-            "into_str" => { r.set_body(std::str::from_utf8(&unhex(h)).unwrap()); Ok(()) }
-            "into_vec" => { r.set_body(unhex(h)); Ok(()) }
-            "into_value" => { r.set_body(json.clone().unwrap()); Ok(()) }
-            "reader_none" => { r.set_body(Body::from_reader(futures::io::Cursor::new(unhex(h)), None)); Ok(()) }
-            "reader_len" => { let v = unhex(h); let n = v.len(); r.set_body(Body::from_reader(futures::io::Cursor::new(v), Some(n))); Ok(()) }
-            "empty" => { r.set_body(Body::empty()); Ok(()) }
-            "json_bad" => r.body_json(&BadJson).map_err(|e| e.to_string()),
-            _ => r.body_form(&vec![vec![1u8]]).map_err(|e| e.to_string()),
-        },
-        Op::Query { kind, pairs, page, q, tags } => match kind.as_str() {
-            "map" => { let m: BTreeMap<String, String> = pairs.iter().cloned().collect(); r.set_query(&m).map_err(|e| e.to_string()) }
-            "struct" => r.set_query(&QStruct { page: *page, q: q.clone(), tags: tags.clone() }).map_err(|e| e.to_string()),
-            _ => r.set_query(&"bare").map_err(|e| e.to_string()),
-        },
-    }
-}
-
-fn method_of(s: &str) -> Method { s.parse().expect("harness: unknown method") }
-
-// ---- command API
-pub enum CmdEffect { Http(crux_core::Request<HttpRequest>) }
-impl From<crux_core::Request<HttpRequest>> for CmdEffect { fn from(r: crux_core::Request<HttpRequest>) -> Self { CmdEffect::Http(r) } }
-pub enum CmdEvent { Done(#[allow(dead_code)] crux_http::Result<crux_http::Response<Vec<u8>>>) }
-type CmdHttp = crux_http::command::Http<CmdEffect, CmdEvent>;
-
-/// Ok(requests that reached the shell) | Err(message of the refused call)
-fn play_cmd(d: &Desc) -> Result<Vec<HttpRequest>, String> {
-    let mut b = if d.entry == "request" {
-        CmdHttp::request(method_of(&d.method), Url::parse(&d.url).expect("harness: entry=request needs a valid url"))
-    } else {
-        match d.method.as_str() {
-            "GET" => CmdHttp::get(&d.url), "HEAD" => CmdHttp::head(&d.url), "POST" => CmdHttp::post(&d.url),
-            "PUT" => CmdHttp::put(&d.url), "DELETE" => CmdHttp::delete(&d.url), "PATCH" => CmdHttp::patch(&d.url),
-            "OPTIONS" => CmdHttp::options(&d.url), "TRACE" => CmdHttp::trace(&d.url), "CONNECT" => CmdHttp::connect(&d.url),
-            m => panic!("harness: no verb entry for {m}"),
-        }
-    };
-    for op in &d.ops { b = apply_builder!(b, op)?; }
-    let mut cmd: Command<CmdEffect, CmdEvent> = b.build().then_send(CmdEvent::Done);
-    let effs: Vec<CmdEffect> = cmd.effects().collect();
-    Ok(effs.into_iter().map(|CmdEffect::Http(r)| r.operation.clone()).collect())
-}
-
-// ---- capability API through a real Core
-mod capapp {
-    use super::*;
-    use crux_core::macros::Effect;
-    use crux_http::middleware::{Middleware, Next};
-    use std::sync::Mutex;
-
-    pub enum Event { Go(Desc), Done(#[allow(dead_code)] crux_http::Result<crux_http::Response<Vec<u8>>>) }
-    #[derive(Default)]
-    pub struct App;
-    #[derive(Default)]
-    pub struct Model { pub refused: Option<String> }
-    #[derive(Effect)]
-    pub struct Capabilities { pub http: crux_http::Http<Event> }
-
-    /// the part of the description that is made on the `Request` itself
-    pub struct Stage2(pub Vec<Op>, pub Arc<Mutex<Option<String>>>);
-    #[async_trait::async_trait]
-    impl Middleware for Stage2 {
-        async fn handle(&self, mut req: crux_http::Request, client: crux_http::client::Client, next: Next<'_>) -> crux_http::Result<crux_http::ResponseAsync> {
-            for op in &self.0 {
-                if let Err(e) = apply_request(&mut req, op) {
-                    *self.1.lock().unwrap() = Some(e.clone());
-                    return Err(crux_http::HttpError::Io(e)); // the app gives up: nothing is sent
-                }
-            }
-            next.run(req, client).await
-        }
-    }
-    pub static REFUSED: Mutex<Option<Arc<Mutex<Option<String>>>>> = Mutex::new(None);
-    /// a call refused (Err) in the builder stage: the app gives up and sends nothing
-    pub static REFUSED_BUILDER: Mutex<Option<String>> = Mutex::new(None);
-
-    impl crux_core::App for App {
-        type Event = Event; type Model = Model; type ViewModel = (); type Capabilities = Capabilities; type Effect = Effect;
-        fn update(&self, event: Event, model: &mut Model, caps: &Capabilities) -> Command<Effect, Event> {
-            if let Event::Go(d) = event {
-                let http = &caps.http;
-                let mut b = if d.entry == "request" {
-                    http.request(method_of(&d.method), Url::parse(&d.url).expect("harness: entry=request needs a valid url"))
-                } else {
-                    match d.method.as_str() {
-                        "GET" => http.get(&d.url), "HEAD" => http.head(&d.url), "POST" => http.post(&d.url),
-                        "PUT" => http.put(&d.url), "DELETE" => http.delete(&d.url), "PATCH" => http.patch(&d.url),
-                        "OPTIONS" => http.options(&d.url), "TRACE" => http.trace(&d.url), "CONNECT" => http.connect(&d.url),
-                        m => panic!("harness: no verb entry for {m}"),
-                    }
-                };
-                for op in &d.ops[..d.split] {
-                    match apply_builder!(b, op) { Ok(nb) => b = nb, Err(e) => { model.refused = Some(e.clone()); *REFUSED_BUILDER.lock().unwrap() = Some(e); return Command::done(); } }
-                }
-                if d.split < d.ops.len() {
-                    let cell = Arc::new(Mutex::new(None));
-                    *REFUSED.lock().unwrap() = Some(cell.clone());
-                    b = b.middleware(Stage2(d.ops[d.split..].to_vec(), cell));
-                }
-                b.send(Event::Done);
-            }
-            Command::done()
-        }
-        fn view(&self, _m: &Model) {}
-    }
-}
-
-fn play_cap(d: &Desc) -> Result<Vec<HttpRequest>, String> {
-    use capapp::*;
-    *REFUSED.lock().unwrap() = None;
-    *REFUSED_BUILDER.lock().unwrap() = None;
-    let core: crux_core::Core<App> = crux_core::Core::new();
-    let effs = core.process_event(Event::Go(d.clone()));
-    let reqs: Vec<HttpRequest> = effs.into_iter().map(|Effect::Http(r)| r.operation.clone()).collect();
-    let stage2 = REFUSED.lock().unwrap().take().and_then(|c| c.lock().unwrap().clone());
-    let stage2 = REFUSED_BUILDER.lock().unwrap().take().or(stage2);
-    if let Some(e) = stage2 { return if reqs.is_empty() { Err(e) } else { Err(format!("refused but {} request(s) sent: {e}", reqs.len())) }; }
-    Ok(reqs)
-}
-
-// ------------------------------------------------------------------ second independent description (plain Rust)
-#[derive(Debug, PartialEq)]
-struct Wire { method: String, url: String, headers: Vec<(String, Vec<String>)>, body: Vec<u8> }
-
-/// Expected wire request of a well-formed description, written against the documentation only:
-/// names are case-insensitive (lower-cased), `header` replaces, `append` appends, `remove` deletes, a body
-/// brings its documented content type unless a content type is already present, the last body and the last
-/// query win.  Returns None where the description is refused or malformed.
-fn expect(d: &Desc, encs: &[Enc], urls: &[(Option<String>, Option<String>)]) -> Option<Wire> {
-    let mut hs: Vec<(String, Vec<String>)> = vec![];
-    let mut body: Vec<u8> = vec![];
-    let mut q: Option<String> = None;
-    let set = |hs: &mut Vec<(String, Vec<String>)>, n: String, v: Vec<String>| {
-        if let Some(e) = hs.iter_mut().find(|e| e.0 == n) { e.1 = v } else { hs.push((n, v)) }
-    };
-    for (op, e) in d.ops.iter().zip(encs) {
-        match op {
-            Op::Header { name, values, .. } => { if !name.is_ascii() || values.iter().any(|v| !v.is_ascii()) { return None; } set(&mut hs, name.to_ascii_lowercase(), values.clone()) }
-            Op::Append { name, values, .. } => {
-                if !name.is_ascii() || values.iter().any(|v| !v.is_ascii()) { return None; }
-                let n = name.to_ascii_lowercase();
-                if let Some(x) = hs.iter_mut().find(|x| x.0 == n) { x.1.extend(values.iter().cloned()) } else { hs.push((n, values.clone())) }
-            }
-            Op::Remove { name } => { if !name.is_ascii() { return None; } let n = name.to_ascii_lowercase(); hs.retain(|x| x.0 != n) }
-            Op::ContentType { .. } => { let m = String::from_utf8(unhex(e.hex.as_ref()?)).unwrap(); set(&mut hs, "content-type".into(), vec![m]) }
-            Op::Body { kind, .. } => {
-                body = unhex(e.hex.as_ref()?);
-                let mime = match kind.as_str() { "string" | "into_str" => "text/plain;charset=utf-8", "json" | "into_value" => "application/json", "form" => "application/x-www-form-urlencoded", _ => "application/octet-stream" };
-                if !hs.iter().any(|x| x.0 == "content-type") { hs.push(("content-type".into(), vec![mime.into()])) }
-            }
-            Op::Query { .. } => { q = Some(e.hex.clone()?) }
-        }
-    }
-    let url = urls.iter().find(|(k, _)| *k == q)?.1.clone()?;
-    Some(Wire { method: d.method.clone(), url: String::from_utf8(unhex(&url)).unwrap(), headers: hs, body })
-}
-
-fn rust_ok(w: &Wire, r: &HttpRequest) -> bool {
-    if w.method != r.method || w.url != r.url || w.body != r.body { return false; }
-    let mut names: Vec<String> = r.headers.iter().map(|h| h.name.clone()).collect();
-    names.extend(w.headers.iter().map(|h| h.0.clone()));
-    names.iter().all(|n| {
-        let got: Vec<&str> = r.headers.iter().filter(|h| &h.name == n).map(|h| h.value.as_str()).collect();
-        let want: Vec<&str> = w.headers.iter().filter(|h| &h.0 == n).flat_map(|h| h.1.iter().map(|s| s.as_str())).collect();
-        got == want
-    })
-}
-
-// ------------------------------------------------------------------ generators
-const VERBS: [&str; 9] = ["GET", "HEAD", "POST", "PUT", "DELETE", "PATCH", "OPTIONS", "TRACE", "CONNECT"];
-const METHODS: [&str; 39] = ["ACL", "BASELINE-CONTROL", "BIND", "CHECKIN", "CHECKOUT", "CONNECT", "COPY", "DELETE", "GET", "HEAD", "LABEL", "LINK", "LOCK", "MERGE", "MKACTIVITY", "MKCALENDAR", "MKCOL", "MKREDIRECTREF", "MKWORKSPACE", "MOVE", "OPTIONS", "ORDERPATCH", "PATCH", "POST", "PRI", "PROPFIND", "PROPPATCH", "PUT", "REBIND", "REPORT", "SEARCH", "TRACE", "UNBIND", "UNCHECKOUT", "UNLINK", "UNLOCK", "UPDATE", "UPDATEREDIRECTREF", "VERSION-CONTROL"];
-const NAMES: [&str; 22] = ["Accept", "accept", "ACCEPT", "X-Id", "x-id", "X-ID", "Content-Type", "content-type", "CONTENT-TYPE", "Authorization", "authorization", "X-Trace", "Cookie", "cookie", "Accept-Language", "If-None-Match", "User-Agent", "X-A", "X-B", "X-C", "x-a", "Content-Length"];
-const MIMES: [&str; 10] = ["text/html", "application/json", "text/plain; charset=utf-8", "TEXT/Plain;Charset=UTF-8", "application/x-www-form-urlencoded", "image/svg+xml", "multipart/form-data; boundary=\"a b\"", "application/octet-stream", "text/csv;header=present;x=\"q\\\"uote\"", "*/*"];
-
-fn ascii_text(r: &mut Rng, max: u64) -> String {
-    let n = r.below(max + 1);
-    (0..n).map(|_| match r.below(20) {
-        0 => *r.pick(&[' ', ',', ';', '=', '"', '\\', ':', '\t', '%', '&', '+', '#', '?', '/']),
-        1 => *r.pick(&['\r', '\n', '\0', '\x7f']),
-        _ => (r.range(0x21, 0x7e) as u8) as char,
-    }).collect()
-}
-fn uni_text(r: &mut Rng, max: u64) -> String {
-    let n = r.below(max + 1);
-    (0..n).map(|_| match r.below(8) {
-        0 => *r.pick(&['é', 'ß', '日', '本', '😀', 'π', '\u{200b}', 'İ']),
-        1 => *r.pick(&[' ', '&', '=', '+', '%', '/', '?', '#', '[', ']', '*', '-', '.', '_', '~', '"', '<']),
-        _ => (r.range(0x61, 0x7a) as u8) as char,
-    }).collect()
-}
-fn header_name(r: &mut Rng) -> String {
-    match r.below(12) {
-        0 => { let n = r.range(1, 12); (0..n).map(|_| *r.pick(&['a', 'B', 'c', 'D', '-', '_', '1', 'z', 'Q'])).collect() }
-        1 => ascii_text(r, 6), // odd but ASCII: spaces, colons, even the empty name
-        _ => r.pick(&NAMES).to_string(),
-    }
-}
-fn header_value(r: &mut Rng) -> String {
-    match r.below(16) {
-        0 => String::new(),
-        1 => { let n = r.range(1000, 9000); (0..n).map(|i| (b'a' + (i % 26) as u8) as char).collect() }
-        2 => "a, b, c".into(),
-        _ => ascii_text(r, 24),
-    }
-}
-fn json_value(r: &mut Rng, depth: u32) -> Value {
-    match r.below(if depth == 0 { 6 } else { 8 }) {
-        0 => Value::Null, 1 => json!(r.coin(1, 2)), 2 => json!(r.next() as i64), 3 => json!((r.next() % 100000) as f64 / 8.0),
-        4 => json!(uni_text(r, 12)), 5 => json!(r.next()),
-        6 => Value::Array((0..r.below(4)).map(|_| json_value(r, depth - 1)).collect()),
-        _ => Value::Object((0..r.below(4)).map(|_| (uni_text(r, 5), json_value(r, depth - 1))).collect()),
-    }
-}
-fn pairs(r: &mut Rng) -> Vec<(String, String)> { (0..r.below(5)).map(|_| (uni_text(r, 6), uni_text(r, 10))).collect() }
-fn bytes_payload(r: &mut Rng) -> Vec<u8> {
-    match r.below(40) {
-        0 => vec![], 1 => (0..=255u8).collect(),
-        2 => { let n = r.range(20_000, 70_000); (0..n).map(|_| r.next() as u8).collect() }
-        _ => { let n = r.below(40); (0..n).map(|_| r.next() as u8).collect() }
-    }
-}
-fn body_op(r: &mut Rng) -> Op {
-    let kind = *r.pick(&["string", "string", "bytes", "bytes", "json", "json", "form", "form", "into_str", "into_vec", "into_value", "reader_none", "reader_len", "empty"]);
-    let mut op = Op::Body { kind: kind.into(), hex: String::new(), json: None, pairs: None };
-    if let Op::Body { hex: h, json, pairs: p, .. } = &mut op {
-        match kind {
-            "string" | "into_str" => *h = hex(if r.coin(1, 30) { "x".repeat(r.range(10_000, 40_000) as usize) } else { uni_text(r, 30) }.as_bytes()),
-            "bytes" | "into_vec" | "reader_none" | "reader_len" => *h = hex(&bytes_payload(r)),
-            "json" | "into_value" => *json = Some(json_value(r, 3)),
-            "form" => *p = Some(pairs(r)),
-            _ => {}
-        }
-    }
-    op
-}
-fn query_op(r: &mut Rng) -> Op {
-    if r.coin(1, 2) {
-        let mut m: BTreeMap<String, String> = BTreeMap::new();
-        for (k, v) in pairs(r) { m.insert(k, v); }
-        Op::Query { kind: "map".into(), pairs: m.into_iter().collect(), page: 0, q: String::new(), tags: vec![] }
-    } else {
-        Op::Query { kind: "struct".into(), pairs: vec![], page: r.next() as u32, q: uni_text(r, 10), tags: (0..r.below(4)).map(|_| uni_text(r, 6)).collect() }
-    }
-}
-fn header_like(r: &mut Rng, append: bool) -> Op {
-    let name = header_name(r);
-    let (form, values) = match r.below(6) {
-        0 => ("slice", (0..r.below(4)).map(|_| header_value(r)).collect::<Vec<_>>()), // may be empty: a name without values
-        1 => ("values", (0..r.range(1, 3)).map(|_| header_value(r)).collect()),
-        2 => ("string", vec![header_value(r)]),
-        _ => ("str", vec![header_value(r)]),
-    };
-    if append { Op::Append { name, values, form: form.into() } } else { Op::Header { name, values, form: form.into() } }
-}
-fn builder_op(r: &mut Rng) -> Op {
-    match r.below(20) {
-        0..=11 => header_like(r, false),
-        12 | 13 => Op::ContentType { mime: r.pick(&MIMES).to_string() },
-        14..=17 => body_op(r),
-        _ => query_op(r),
-    }
-}
-fn request_op(r: &mut Rng) -> Op {
-    match r.below(20) {
-        0..=5 => header_like(r, false),
-        6..=12 => header_like(r, true),
-        13 | 14 => Op::Remove { name: header_name(r) },
-        15 => Op::ContentType { mime: r.pick(&MIMES).to_string() },
-        16..=18 => body_op(r),
-        _ => query_op(r),
-    }
-}
-fn url_gen(r: &mut Rng) -> String {
-    let scheme = *r.pick(&["http", "https", "https", "HTTP", "ws", "app", "file"]);
-    let host = match r.below(10) {
-        0 => "EXAMPLE.com".to_string(), 1 => "bücher.example".into(), 2 => "127.0.0.1".into(), 3 => "[::1]".into(), 4 => "日本.jp".into(),
-        5 => "user:p%40ss@example.org".into(), 6 => "a.b.c.d.example.co.uk".into(), _ => "example.com".into(),
-    };
-    let port = match r.below(8) { 0 => ":80", 1 => ":443", 2 => ":8080", 3 => ":0", _ => "" };
-    let mut u = if scheme == "file" { "file://".to_string() } else { format!("{scheme}://{host}{port}") };
-    for _ in 0..r.below(5) {
-        u.push('/');
-        u.push_str(&match r.below(10) { 0 => "..".into(), 1 => ".".into(), 2 => "a b".into(), 3 => "%7Euser".into(), 4 => "%zz".into(), 5 => "caf\u{e9}".into(), 6 => String::new(), 7 => "x;y=1".into(), _ => uni_text(r, 8).replace(['/', '?', '#'], "") });
-    }
-    if r.coin(1, 3) { u.push('?'); u.push_str(&match r.below(5) { 0 => "a=1&b=2".into(), 1 => "q=a b&r=\"x\"".into(), 2 => String::new(), 3 => "k=%41%zz&u=é".into(), _ => uni_text(r, 12).replace('#', "") }); }
-    if r.coin(1, 5) { u.push('#'); u.push_str(&match r.below(3) { 0 => "frag".into(), 1 => "a b#c".into(), _ => uni_text(r, 6) }); }
-    u
-}
-fn joined_url(r: &mut Rng) -> Option<String> {
-    let base = Url::parse(&url_gen(r)).ok()?;
-    let rel = match r.below(8) { 0 => "../up".to_string(), 1 => "/abs/path?x=1".into(), 2 => "?only=query".into(), 3 => "#frag".into(), 4 => "//other.example/p".into(), 5 => "sub/dir/".into(), 6 => "https://absolute.example/a?b#c".into(), _ => uni_text(r, 10) };
-    base.join(&rel).ok().map(|u| u.to_string())
-}
-fn gen_valid(r: &mut Rng) -> Desc {
-    let api = if r.coin(1, 2) { "cmd" } else { "cap" };
-    let entry = if r.coin(1, 3) { "request" } else { "verb" };
-    let method = if entry == "request" { r.pick(&METHODS).to_string() } else { r.pick(&VERBS).to_string() };
-    let url = loop {
-        let u = if entry == "request" && r.coin(1, 2) { joined_url(r) } else { Some(url_gen(r)) };
-        if let Some(u) = u { if let Ok(p) = Url::parse(&u) { break if entry == "request" { p.to_string() } else { u }; } }
-    };
-    let nb = match r.below(10) { 0 => 0, 1 => r.range(12, 40), _ => r.below(8) };
-    let mut ops: Vec<Op> = (0..nb).map(|_| builder_op(r)).collect();
-    let split = ops.len();
-    if api == "cap" && r.coin(2, 3) { for _ in 0..r.range(1, 10) { ops.push(request_op(r)); } }
-    // valid stream: keep everything ASCII where the API demands it
-    Desc { api: api.into(), entry: entry.into(), method, url, split, ops }
-}
-/// malformed stream: one defect injected into a valid description
-fn gen_malformed(r: &mut Rng) -> Desc {
-    let mut d = gen_valid(r);
-    match r.below(6) {
-        0 => { d.entry = "verb".into(); if !VERBS.contains(&d.method.as_str()) { d.method = "GET".into(); }
-               d.url = r.pick(&["", "no scheme", "http://", "://x", "http://exa mple.com/", "http://[::1", "http://example.com:99999/", "/relative/only", "http://a b/"]).to_string(); }
-        1 => { let op = Op::Header { name: r.pick(&["naïve", "x-é", "日本"]).to_string(), values: vec!["v".into()], form: "str".into() }; let at = r.below(d.split as u64 + 1) as usize; d.ops.insert(at, op); d.split += 1; }
-        2 => { let op = Op::Header { name: "X-Name".into(), values: vec![r.pick(&["é", "naïve", "日本", "a\u{80}b"]).to_string()], form: r.pick(&["str", "string"]).to_string() }; let at = r.below(d.split as u64 + 1) as usize; d.ops.insert(at, op); d.split += 1; }
-        3 => { let op = Op::ContentType { mime: r.pick(&["", "nonsense", "text/", "/plain", "text/pl ain"]).to_string() }; let at = r.below(d.split as u64 + 1) as usize; d.ops.insert(at, op); d.split += 1; }
-        4 => { let kind = *r.pick(&["json_bad", "form_bad"]); let op = Op::Body { kind: kind.into(), hex: String::new(), json: None, pairs: None };
-               if d.api == "cap" && r.coin(1, 2) { d.ops.push(op) } else { let at = r.below(d.split as u64 + 1) as usize; d.ops.insert(at, op); d.split += 1; } }
-        _ => { let op = Op::Query { kind: "bad".into(), pairs: vec![], page: 0, q: String::new(), tags: vec![] };
-               if d.api == "cap" && r.coin(1, 2) { d.ops.push(op) } else { let at = r.below(d.split as u64 + 1) as usize; d.ops.insert(at, op); d.split += 1; } }
-    }
-    d
-}
+#[path = "httpreq_util/desc.rs"]
+#[macro_use]
+mod desc;
+use desc::*;
 
 // ------------------------------------------------------------------ running and printing
 fn req_json(r: &HttpRequest) -> Value {
@@ -560,6 +43,7 @@ fn run_one(d: &Desc, origin: &str) -> Value {
         Ok(Err(e)) => ("refused", vec![], e.clone(), want.is_none()),
         Err(p) => ("panic", vec![], p.downcast_ref::<String>().cloned().or_else(|| p.downcast_ref::<&str>().map(|s| s.to_string())).unwrap_or_default(), want.is_none()),
     };
+    let msg = msg.lines().next().unwrap_or("").to_string(); // no backtraces: output is a function of the seed
     json!({"origin": origin, "desc": d, "enc": encs, "urls": urls, "outcome": outcome, "effects": effects, "msg": msg, "rust_ok": rok})
 }
 
